@@ -379,6 +379,11 @@ def handle (j : Json) : Json :=
     Json.mkObj [("status", "ok"), ("C0", toJson (matToBits C0)), ("target", toJson (matToBits F.target)),
       ("filter", toJson (matToBits F.filter)), ("comps", toJson (matToBits F.comps)), ("scores", toJson (matToBits F.scores)),
       ("norms", toJson (vecToBits F.norms)), ("decorr", toJson (vecToBits F.decorr))]
+  | "eeof" =>
+    let n := getNat j "n"; let p := getNat j "p"; let tau := getNat j "tau"; let emb := getNat j "embedding"
+    let X := matOfBits n p (getStrArr j "X")
+    let E : Mat (Gen.eeofSamplesKept n emb tau) (emb * p) Float := embedMatrix X tau emb
+    Json.mkObj [("status", "ok"), ("rows", toJson (Gen.eeofSamplesKept n emb tau)), ("cols", toJson (emb * p)), ("E", toJson (matToBits E))]
   | "scaler" =>
     let f : ScalerFlags := ⟨getBool j "with_center", getBool j "with_std", getBool j "with_coslat"⟩
     let P : ScalerParams Float := ⟨bitsToFloat (getStr j "mean"), bitsToFloat (getStr j "std"), bitsToFloat (getStr j "coslat"), bitsToFloat (getStr j "weights")⟩
